@@ -426,7 +426,7 @@ struct Digit {
                     }
                 }
                 ///////////////////////////////////////////////////////////
-                if (number.Natural != 0) {
+                {
                     const SizeT32 e_p10_power =
                         (SizeT32(tmp_offset - start_offset) - SizeT32(!fraction_only && has_dot));
 
@@ -517,15 +517,18 @@ struct Digit {
                         is_negative_exp = true;
                     }
 
-                    if ((is_negative_exp && (exponent > e_p10_power) && ((exponent - e_p10_power) > SizeT32{324})) ||
-                        (!is_negative_exp && ((exponent + e_p10_power) > SizeT32{309}))) {
-                        return QNumberType::NotANumber;
-                    }
+                    // A zero mantissa stays zero whatever the exponent is; the rest of the numeral has been consumed above.
+                    if (number.Natural != 0) {
+                        if ((is_negative_exp && (exponent > e_p10_power) && ((exponent - e_p10_power) > SizeT32{324})) ||
+                            (!is_negative_exp && ((exponent + e_p10_power) > SizeT32{309}))) {
+                            return QNumberType::NotANumber;
+                        }
 
-                    if (is_negative_exp) {
-                        powerOfNegativeTen(number.Natural, exponent);
-                    } else {
-                        powerOfPositiveTen(number.Natural, exponent);
+                        if (is_negative_exp) {
+                            powerOfNegativeTen(number.Natural, exponent);
+                        } else {
+                            powerOfPositiveTen(number.Natural, exponent);
+                        }
                     }
                 }
                 ///////////////////////////////////////
